@@ -5,7 +5,13 @@ FieldCollection / MemoryStorage objects vs the heap model `PdeVerif.Heap.step` (
 complex-rational values).  After every step the complete `np.shares_memory` relation (with
 relative offsets), the dtype, the member identities and the values read through every handle
 are compared.  Monitor: the property statements themselves, evaluated on the real objects at
-the level of memory addresses (independent of the model)."""
+the level of memory addresses (independent of the model).
+
+List objects that cross the API (`fc.fields`, `list(fc.labels)`, `fc.labels[:]`, lists the caller builds and
+passes to the constructor) are handles of the histories too: in-place operations on them (reverse, sort, item
+assignment, pop, append, insert, del, clear, extend) are modelled by `PdeVerif.Heap.xstep` (Model/HandOut.lean)
+as operations on a copy; the monitor demands, through the public API, that no collection and no other list
+changes; the content of every list and the member list of every collection are part of the tie."""
 import collections
 import logging
 import operator
@@ -61,6 +67,13 @@ ASSUMPTIONS = [
     "time'); member<->collection aliasing is demanded for the collection that linked the member last",
     "vector/tensor fields on a SphericalSymGrid are handed to differential operators only if they satisfy the "
     "documented precondition of those operators (no angular components at valid cells)",
+    "list objects: the model has both constructors (`xstep adopts`: FieldCollection(lst, copy_fields=False) keeps the list "
+    "object of its caller, collection.py:99, or stores a list of its own); which one the tree under test has is read off "
+    "its behaviour through the public API (`ctor_keeps_caller_list`, recorded in input_distribution). The monitor is "
+    "independent of it and reports the keeping constructor (key caller-list-kept-as-member-list) in the fixed histories "
+    "of every run; a history ends with the first list operation that changed a collection (members and layout disagree "
+    "from then on). Lists of labels are modelled as lists of tokens (the member whose label it was); Python's list "
+    "semantics and `id()` are trusted",
 ]
 TRUSTED_EXTRA = ["np.shares_memory and ndarray.__array_interface__ as the definition of the real aliasing relation"]
 
